@@ -131,7 +131,7 @@ class Builder:
         return ir.Reg(n, alias)
 
     # -- values ------------------------------------------------------------------------------
-    def lit_or_const(self, v):
+    def lit_or_const(self, v, top=True):
         """A literal, a constant that has exactly this value, or (p_expr_operand) an arithmetic expression that evaluates to it."""
         if self.chance(self.p['p_const_operand']):
             names = [n for n, cv in self.cvals.items() if cv == v and not isinstance(cv, tuple)]
@@ -140,14 +140,24 @@ class Builder:
                 return ir.CRef(self.pick(names))
         if self.chance(self.p.get('p_expr_operand', 0.06)):
             self.tags.add('expr_operand')
-            return self.expr_for(v)
+            return self.expr_for(v, top)
         return ir.Lit(v)
 
-    def expr_for(self, v):
+    def expr_for(self, v, top=True):
         """An arithmetic expression (documented: "basic arithmetic operations" over integers and constants) with value v.  The first
         token is often a bare decimal 0..31 - a spelling that is also a register name."""
-        k = self.i(0, 8)
+        k = self.i(0, 9)
         a = self.pick([0, 1, 2, 4, 5, 8, 10, 16, 31, 3, 7]) if self.chance(0.7) else self.i(-64, 4096)
+        if k == 9 and not top:
+            k = 0      # (no modifier inside the argument of another modifier)
+        if k == 9:
+            names9 = [n for n, cv in self.cvals.items() if not isinstance(cv, tuple) and abs(cv) < (1 << 40)]
+            if names9:
+                # %position(K, n) over a CONSTANT: K + n, final as soon as the constants are known
+                n9 = self.pick(names9)
+                self.tags.add('position_of_constant')
+                return ir.PosC(n9, ir.Lit(v - self.cvals[n9]))
+            k = 0
         if k == 8:
             # a top-level shift: ADDR >> 12 (the usual way to write a lui operand)
             sh = self.pick([12, 12, 4, 1])
@@ -211,12 +221,12 @@ class Builder:
             self.expected_ok = False
             return ir.Off(L)
         self.expected_ok = False
-        return ir.Pos(L, self.lit_or_const(self.edgy(-1024, 1024)))
+        return ir.Pos(L, self.lit_or_const(self.edgy(-1024, 1024), top=False))
 
     def pos_base(self):
         k = self.i(0, 5)
         if k == 0:
-            return self.lit_or_const(self.edgy(-2100, 2100, extra=(-2048, 2047, -2060, 2040)))
+            return self.lit_or_const(self.edgy(-2100, 2100, extra=(-2048, 2047, -2060, 2040)), top=False)
         if k == 1:
             return ir.Lit(self.pick([0x08000000, 0x20000000, 0x7ffff800, 0x7fffffff, 0x80000000, 0xfffff000, 0x40021000]))
         if k == 2:
@@ -438,6 +448,17 @@ class Builder:
             return ir.Insn('lui', {'rd': self.reg(pool=[0, 1, 2, 3, 8, 15, 31]), 'imm': self.upper_operand(v)})
         v = self.edgy(-0x80000, 0xfffff, extra=(0x7ffff, 0x80000, 0xfffe0))
         return ir.Insn(mn, {'rd': self.reg(), 'imm': self.upper_operand(v)})
+
+    def auipc_pair(self):
+        """A hand-written auipc + jalr / addi pair with literal operands (the jalr with offset 0 is the expansion of c.jr / c.jalr)."""
+        self.tags.add('literal_auipc_pair')
+        x = self.pick([5, 6, 7, 1, 28, 10])
+        first = ir.Insn('auipc', {'rd': self.reg(x), 'imm': ir.Lit(self.pick([0, 0, 1, 0x10, 0xfffff]))})
+        if self.chance(0.7):
+            second = ir.Insn('jalr', {'rd': self.reg(self.pick([0, 1])), 'rs1': self.reg(x), 'imm': ir.Lit(self.pick([0, 0, 0, 4, 8, -4]))}, baseoff=self.chance(0.5))
+        else:
+            second = ir.Insn('addi', {'rd': self.reg(x), 'rs1': self.reg(x), 'imm': ir.Lit(self.pick([0, 4, 16, -32, 31, 100]))})
+        return [first, second]
 
     def upper_operand(self, v):
         if self.chance(0.2):
@@ -743,6 +764,8 @@ class Builder:
         if kind == 'store':
             return [self.insn_store()]
         if kind == 'upper':
+            if self.chance(0.15):
+                return self.auipc_pair()
             return [self.insn_upper()]
         if kind == 'sys':
             return [self.insn_sys()]
